@@ -17,7 +17,9 @@ def mutClass (m : String) : String :=
   let parts := m.splitOn ":"
   match parts with
   | "inject" :: e :: _ => "inject:" ++ e
+  | "query" :: "filter" :: "metadata-bracket" :: _ => "query:filter:metadata-bracket"
   | "query" :: "filter" :: _ => "query:filter"
+  | "query" :: "cursor" :: k :: _ => "query:cursor:" ++ k
   | "query" :: k :: _ => "query:" ++ k
   | "logs" :: k :: _ => "logs:" ++ k
   | "path" :: k :: _ => "path:" ++ k
@@ -70,11 +72,18 @@ def handleHttp : Handler := fun inp out => do
   let readErr := mc = "inject:ErrInvalidQuery" || mc = "inject:ErrMissingFeature" || mc = "inject:ErrNotPaginatedField"
   let v1FilterParam := ["query:after", "query:startTime", "query:endTime", "query:start_time", "query:end_time"].contains mc
   let is5xx := cls.startsWith "5xx"
+  let isCursor := mc.startsWith "query:cursor"
+  -- null | no-order | no-bottom are three distinct panics; other kinds only by class
+  let cursorKind := match mc.splitOn ":" with
+    | [_, _, k] => if k = "null" || k = "no-order" || k = "no-bottom" then k else "other"
+    | _ => "other"
   let family : String :=
-    if mc = "query:cursor" && cls = "panic" then "C38:cursor:panic"
-    else if mc = "query:cursor" && is5xx then "C38:cursor:5xx"
+    if isCursor && cls = "panic" then s!"C38:cursor:panic:{cursorKind}"
+    else if isCursor && is5xx then "C38:cursor:5xx"
     else if containsSub route "/logs/import" then s!"C38:logs-import:{cls}:{mc}"
     else if isV1 && is5xx && (readErr || v1FilterParam) then "C38:v1-read-errors:5xx"
+    else if is5xx && mc = "query:filter:metadata-bracket" then "C38:filter-metadata-bracket:5xx"
+    else if is5xx && mc = "query:sort" then "C38:sort-unknown-column:5xx"
     else if !isV1 && is5xx && readErr && (containsSub route "/accounts/{address}" || containsSub route "/transactions/{id}") then
       "C38:v2-read-one-errors:5xx"
     else if isV1 && is5xx && containsSub route "/revert" && mc.startsWith "inject:" then "C38:v1-revert-write-errors:5xx"
